@@ -1,0 +1,24 @@
+//! Verification hooks, compiled only under `--cfg redb_verif`.
+//!
+//! Everything here exposes state or pauses execution; nothing here computes a verdict.
+
+use std::sync::{Arc, RwLock};
+
+// ---- pause points --------------------------------------------------------------------------------
+
+type PauseHook = Arc<dyn Fn(&'static str) + Send + Sync>;
+
+static PAUSE_HOOK: RwLock<Option<PauseHook>> = RwLock::new(None);
+
+/// Install (or remove) the function called at every named pause point. Inert when unset.
+pub fn set_pause_hook(hook: Option<PauseHook>) {
+    *PAUSE_HOOK.write().unwrap() = hook;
+}
+
+pub(crate) fn pause(name: &'static str) {
+    let hook = PAUSE_HOOK.read().unwrap().clone();
+    if let Some(hook) = hook {
+        hook(name);
+    }
+}
+
